@@ -48,7 +48,7 @@ RULE = (
 )
 TRUSTED = [
     "registry transport: the Lean driver receives the registry as read off the real Extension objects (names, owners, "
-    "parameters, bounds, descriptions, type schemes with requirement sets sorted; misc/values/lower_funcs not transported); "
+    "parameters, bounds, descriptions, type schemes with their requirement lists in the set order of the run; misc/values/lower_funcs not transported); "
     "standard extensions with more than 8 operations are pruned to the definitions whose names occur in the case plus two "
     "others (Lean lemma resolve_congr: resolution only depends on the looked-up definitions)",
     "Hugr.load_json / to_json tied to Serial.loadJson / toJson (opsCodec) by C02/C05/C06; type_bound and _to_serial by C07",
@@ -78,6 +78,7 @@ DESCS = ["", "a description", "dé\"sc"]
 
 
 _STD_CACHE: dict = {}
+_OD_SX: dict = {}
 _REG_CACHE: dict = {}
 
 
@@ -86,6 +87,7 @@ def _std_ext(name, drop):
 
     if name not in _STD_CACHE:
         _STD_CACHE[name] = _load_extension(name)
+        _STD_CACHE[name]._verif_std = True
     if not drop:
         return _STD_CACHE[name]
     e = copy.deepcopy(_STD_CACHE[name])
@@ -124,16 +126,11 @@ def build_registry(regspec):
     return r
 
 
-def _sorted_poly(pf):
-    s = bridge.type_to_spec(pf)
-    return [s[0], s[1], s[2], s[3], sorted(set(s[4]))]
-
-
 def _opdef_spec(od):
     pf = od.signature.poly_func
     return [
         "@opdef", od._extension.name if od._extension is not None else "@none", od.name, od.description,
-        "@none" if pf is None else _sorted_poly(pf),
+        "@none" if pf is None else bridge.type_to_spec(pf),   # requirement list in this run's set order (F29)
     ]
 
 
@@ -149,12 +146,12 @@ def _strings(x, acc):
             _strings(y, acc)
 
 
-def registry_sx(reg, mentioned, salt):
+def registry_sx(reg, mentioned, salt, prune=True):
     """(reg ("key" (ext "name" "version" (req…) (types ("key" TD)…) (ops ("key" OD)…)))…) read off the real objects."""
     out = [A("reg")]
     for key, e in reg.extensions.items():
         ops = list(e.operations.items())
-        if len(ops) > 8:
+        if prune and len(ops) > 8:
             keep = [kv for kv in ops if kv[0] in mentioned]
             rest = [kv for kv in ops if kv[0] not in mentioned]
             random.Random(salt).shuffle(rest)
@@ -167,8 +164,14 @@ def registry_sx(reg, mentioned, salt):
         ]
         ods = []
         for k, od in ops:
-            s = _opdef_spec(od)
-            ods.append([k, [A("opdef"), spec_to_sx(s[1]), s[2], s[3], spec_to_sx(s[4]), A("true" if od.signature.binary else "false")]])
+            ck = (e.name, k) if getattr(e, "_verif_std", False) else None   # bundled definitions never change
+            sx = _OD_SX.get(ck) if ck else None
+            if sx is None:
+                s = _opdef_spec(od)
+                sx = [A("opdef"), spec_to_sx(s[1]), s[2], s[3], spec_to_sx(s[4]), A("true" if od.signature.binary else "false")]
+                if ck:
+                    _OD_SX[ck] = sx
+            ods.append([k, sx])
         out.append([key, [A("ext"), e.name, str(e.version), sorted(e.runtime_reqs), [A("types")] + tds, [A("ops")] + ods]])
     return out
 
@@ -807,6 +810,11 @@ def _node_obs(n):
 
 
 def run_impl(spec):
+    if spec["kind"] == "reg":   # transport self-check: the registry as sent, to be printed back by the driver
+        try:
+            return dumps(registry_sx(build_registry(spec["reg"]), set(), "", prune=False))
+        except Exception:  # noqa: BLE001
+            return "build-failed"
     r = _eval(spec)
     if r[0] != "ok":
         return r[0]
@@ -829,17 +837,23 @@ def _encoder():
 
 
 def payload(spec):
-    r = _eval(spec)
-    if r[0] != "ok":
+    """Computed from the spec alone (the check driver calls this in the parent process)."""
+    if spec["kind"] == "reg":
+        try:
+            return "resolve.reg", dumps(registry_sx(build_registry(spec["reg"]), set(), "", prune=False))
+        except Exception:  # noqa: BLE001
+            return None
+    try:
+        reg = build_registry(spec["reg"])
+        k = spec["kind"]
+        mentioned: set = set()
+        if k == "doc":
+            docv = json.loads(doc_of(spec["src"]))
+            _strings(docv, mentioned)
+        else:
+            _strings(spec.get("t", spec.get("op")), mentioned)
+    except Exception:  # noqa: BLE001
         return None
-    _, reg, _, doc0 = r
-    mentioned: set = set()
-    k = spec["kind"]
-    if k == "doc":
-        docv = json.loads(doc0)
-        _strings(docv, mentioned)
-    else:
-        _strings(spec.get("t", spec.get("op")), mentioned)
     salt = json.dumps(spec, sort_keys=True)
     rsx = registry_sx(reg, mentioned, salt)
     if k == "ty":
@@ -864,6 +878,8 @@ def _norm(x):
 def compare(spec, impl_obs, model_obs):
     if impl_obs in ("build-failed",):
         return True
+    if spec["kind"] == "reg":
+        return impl_obs == model_obs
     try:
         return _norm(json.loads(impl_obs)) == _norm(json.loads(model_obs))
     except Exception:  # noqa: BLE001
@@ -1024,6 +1040,8 @@ def _strip_desc(doc, ods, before_doc):
 
 
 def oracle(spec):
+    if spec["kind"] == "reg":
+        return []
     r = _eval(spec)
     if r[0] != "ok":
         return []
@@ -1189,14 +1207,19 @@ def corpus():
 
 
 def cases(rng, tier):
-    n_ty, n_op, n_doc = {"quick": (2600, 900, 170), "thorough": (90000, 30000, 6000)}.get(tier, (40000, 12000, 1500))
+    n_ty, n_op, n_doc = {"quick": (2600, 900, 170), "thorough": (50000, 17000, 3200)}.get(tier, (40000, 12000, 1500))
     for i in range(max(n_ty, n_op, n_doc)):
         if i < n_ty:
             yield gen_ty_case(rng)
         if i < n_op:
             yield gen_op_case(rng)
         if i < n_doc:
-            yield from gen_doc_cases(rng)
+            docs = gen_doc_cases(rng)
+            yield from docs
+            if i % 8 == 0:
+                yield {"kind": "reg", "reg": docs[0]["reg"]}
+        if i % 40 == 0:
+            yield {"kind": "reg", "reg": sub_registry(rng, gen_universe(rng))}
 
 
 def nontrivial(spec, obs):
@@ -1209,6 +1232,8 @@ def nontrivial(spec, obs):
 
 def stats(spec, obs, counters):
     counters[f"kind.{spec['kind']}"] += 1
+    if spec["kind"] == "reg":
+        return
     n = len(spec["reg"])
     counters["registry.empty" if n == 0 else f"registry.{min(n, 4)}{'+' if n >= 4 else ''}-extensions"] += 1
     if obs == "build-failed":
